@@ -308,6 +308,10 @@ def run(ck):
     for w in range(16 if not ck.thorough() else 160):
         if ck.mine(w):
             run_leading_zero(ck, w, ck.seed * 1000003 + 9911)
+    # negotiations that complete only after an INVALID_KE_PAYLOAD retry (IKE_SA_INIT, IKE_SA rekey, PFS CHILD_SA), half of them after an IKE_SA rekey that the
+    # busy peer pushed back: the key monitor judges every SA both ends install (the histories of C04, judged here for the mirror-image clause)
+    from vf.checks import c04 as c04_
+    c04_.invalid_ke_retries(ck, ck.seed * 1000003 + 12100)
     nx = 160 if not ck.thorough() else 20000
     for w in range(nx):
         if ck.mine(w):
@@ -332,6 +336,7 @@ def verdict(ck):
     c = ck.counters
     t = ck.thorough()
     ck.floor('handshakes whose Diffie-Hellman result has a leading zero octet, completed with the RFC keys', c['leading_zero.completed_with_rfc_keys'], 12)
+    ck.floor('INVALID_KE_PAYLOAD histories that start with an IKE_SA rekey pushed back by TEMPORARY_FAILURE', c['ke_retry.histories_after_a_refused_ike_rekey'], 6)
     ck.floor('NEWSA requests checked against the reference derivation', c['keymon.newsa_seen'], 1500)
     ck.floor('mirror pairs compared', c['mirror.sa_pairs_compared'], 2000)
     ck.floor('IKE keyrings checked (initial)', c['keymon.keyring_checked.initial'], 100)
